@@ -154,13 +154,14 @@ example :
 
 /-- body skeletons: the generator's body passes; the same body with a look-up in front of the request
 (an early return: the request may not be sent), with a statement between the assertion and the return,
-or with the error check missing does not; a hand-written skeleton is not accepted for a generated
+or with the error check missing does not, nor does the body that PANICS on an answer of another type (D32); a hand-written skeleton is not accepted for a generated
 method -/
 example :
-    generatedSkeletons.contains [.call, .ifErr, .assert, .ifNotOkPanic, .ret] = true ∧
-    generatedSkeletons.contains [.other "if", .call, .ifErr, .assert, .ifNotOkPanic, .ret] = false ∧
-    generatedSkeletons.contains [.call, .ifErr, .assert, .ifNotOkPanic, .other "assign", .ret] = false ∧
-    generatedSkeletons.contains [.call, .assert, .ifNotOkPanic, .ret] = false ∧
+    generatedSkeletons.contains [.call, .ifErr, .assert, .ifNotOkErr, .ret] = true ∧
+    generatedSkeletons.contains [.other "if", .call, .ifErr, .assert, .ifNotOkErr, .ret] = false ∧
+    generatedSkeletons.contains [.call, .ifErr, .assert, .ifNotOkErr, .other "assign", .ret] = false ∧
+    generatedSkeletons.contains [.call, .assert, .ifNotOkErr, .ret] = false ∧
+    generatedSkeletons.contains [.call, .ifErr, .assert, .ifNotOkPanic, .ret] = false ∧
     generatedSkeletons.contains [.call, .ifErr, .retAssert] = false ∧
     handWrittenSkeletons.contains [.call, .ifErr, .retAssert] = true := by
   decide +kernel
